@@ -32,6 +32,9 @@ def cases(tier, seed, flavour):
         for (n, p) in nps:
             for v in range(8 if tier == 'quick' else 12):
                 yield {'fam': 'conelp', 'dims': d, 'n': n, 'p': p, 'variant': v}
+    for n in (5, 8):
+        for v in range(2 if tier == 'quick' else 8):
+            yield {'fam': 'conelp', 'dims': 'arrow', 'n': n, 'p': 2, 'variant': v}
     for d in (structs if tier == 'thorough' else structs[:14]):
         for (n, p) in nps[:2]:
             yield {'fam': 'coneqp', 'dims': d, 'n': n, 'p': p, 'variant': seed}
@@ -151,7 +154,10 @@ def run(case):
                       % (name, v, base[1]))
 
     if case['fam'] == 'conelp':
-        inst = solve.planted(case['dims'], case['n'], case['p'], case['variant'], 'strict')
+        if case['dims'] == 'arrow':
+            inst = solve.arrow_lp(case['n'], case['variant'])
+        else:
+            inst = solve.planted(case['dims'], case['n'], case['p'], case['variant'], 'strict')
         if inst is None:
             return {'n': 0, 'outcomes': {'skipped-rank': 1}}
         d, p, n = inst['dims'], len(inst['A']), len(inst['c'])
@@ -167,6 +173,10 @@ def run(case):
             for st in ('dense', 'sparse'):
                 pres.append(('kkt=%s,%s' % (k, st), inst, {'entry': 'conelp', 'storage': st, 'kkt': k}, 1.0))
         pres.append(('sparse', inst, {'entry': 'conelp', 'storage': 'sparse', 'kkt': None}, 1.0))
+        if p:
+            for k in [None, 'ldl'] + (['chol2'] if only_l else ['chol']):
+                pres.append(('G-sparse,A-dense,kkt=%s' % k, inst, {'entry': 'conelp', 'storageG': 'sparse', 'storageA': 'dense', 'kkt': k}, 1.0))
+                pres.append(('G-dense,A-sparse,kkt=%s' % k, inst, {'entry': 'conelp', 'storageG': 'dense', 'storageA': 'sparse', 'kkt': k}, 1.0))
         pres.append(('callable-kkt', inst, {'entry': 'conelp', 'storage': 'dense', 'kkt': 'ref'}, 1.0))
         for stt in ('both', 'primal', 'dual'):
             pres.append(('start=' + stt, inst, {'entry': 'conelp', 'storage': 'dense', 'kkt': None, 'start': stt}, 1.0))
@@ -185,10 +195,10 @@ def run(case):
         if d['l'] >= 1:
             pres.append(('l-row-as-q1', _reencode(inst, 'q'), {'entry': 'conelp', 'storage': 'dense', 'kkt': None}, 1.0))
             pres.append(('l-row-as-s1', _reencode(inst, 's'), {'entry': 'conelp', 'storage': 'sparse', 'kkt': None}, 1.0))
-        if d['l'] >= 2:
+        if 2 <= d['l'] <= 3:
             for perm in list(itertools.permutations(range(d['l'])))[1:]:
                 pres.append(('l-rows-permuted', _perm_lrows(inst, perm), {'entry': 'conelp', 'storage': 'dense', 'kkt': None}, 1.0))
-        for perm in list(itertools.permutations(range(n)))[1:]:
+        for perm in (list(itertools.permutations(range(n)))[1:] if n <= 3 else [tuple(range(1, n)) + (0,), tuple(reversed(range(n)))]):
             pres.append(('variables-permuted', _perm_vars(inst, perm), {'entry': 'conelp', 'storage': 'dense', 'kkt': None}, 1.0))
         for t in (0.25, 4.0):
             pres.append(('objective-scaled', _scaled(inst, t), {'entry': 'conelp', 'storage': 'dense', 'kkt': None}, t))
